@@ -145,6 +145,27 @@ CHECKS = {
             'the byte-copy argument.',
             'contracts + symbolic VC generation with generated search-loop invariants and sequence cut points; relational lock-step '
             'obligations over two executions; z3 LIA+arrays+quantifiers'),
+    'C17': ('DESIGN.md section 4 / C17',
+            'Deductive proof of the union-find core of island discovery on the real engine_island.c, with a ghost witness array rep (canonical '
+            'root of every active tree) and the forest invariant Valid(parent, rep): mj_dsuRoot returns rep[tree], keeps Valid with the same '
+            'classes and terminates (variants); mj_dsuMerge ends in Valid(parent, W) for the explicitly given witness W = exactly the two '
+            'classes united under the smaller root, everything else unchanged, error exactly for two static endpoints; mj_dsuAssign gives -1 '
+            'to inactive trees, equal ids exactly to trees of one class, ids 0..count-1 ascending with the smallest tree of the class '
+            '(ghost counting function with two induction lemmas), full path compression and the dof count.',
+            'Trusted: VC generator, clang, z3/cvc5; induction schema for the two counting lemmas. Not under contract (listed): '
+            'unionConstraintTrees / treeNext (which trees a row touches), mj_island map construction, mj_floodFill. Bounded stand-in '
+            '(not counted): the compiled union-find vs brute-force connected components on all short merge sequences over small forests.',
+            'contracts with ghost (logical) parameters + inductive loop invariants and variants, z3 LIA+arrays+quantifiers; bounded native stand-in'),
+    'C34': ('DESIGN.md section 4 / C34',
+            'Deductive proof on the real engine_name.c, per object type of the mjtObj enumeration: _getnumadr returns the count, the name-address '
+            'array and the start of the type\'s region of names_map for the region order extracted from the construction side '
+            '(mjCModel::CopyNames); mj_id2name returns NULL exactly for out-of-range ids and empty names and otherwise points at the stored '
+            'name; mj_name2id terminates within the region, returns -1 or an id whose stored name compares equal to the query (so -1 for '
+            'a string that names nothing), and - under the probing-table invariant the compiler establishes - returns exactly the object '
+            'whose name was queried (the inverse law).',
+            'Trusted: VC generator, clang, z3/cvc5; strncmp as a pure function; mj_hashString as a pure function. Assumed: the table '
+            'invariant built by namelist() in user_model.cc (C++, not verified), name addresses inside names, map entries ids or -1.',
+            'contracts with ghost parameters + inductive loop invariant and variant over the probing loop, z3 LIA+arrays+quantifiers'),
 }
 
 NA = {
